@@ -45,6 +45,16 @@ def apply_event(rig, ev):
         rig.server_msg(M.PotentialParents.Response([PotentialParent(n, f'10.9.0.{NID[n]}', 2234) for n in ev[1]]))
     elif k == 'PI':
         rig.peer_init(ev[1], ev[2], bool(ev[3]), hold=(len(ev) > 4 and ev[4] == 'hold'))
+    elif k == 'ADV':         # virtual time passes (harness-only)
+        rig.advance(ev[1])
+    elif k == 'FL':          # the server floods search requests of some other user; they are forwarded to the children (harness-only)
+        from aioslsk.protocol import messages as M2
+        for j in range(ev[1]):
+            rig.loop.create_task(rig.network.on_message_received(
+                M2.ServerSearchRequest.Response(distributed_code=3, unknown=0, username='erin', ticket=1000 + j, query='x'), rig.network.server_connection))
+        rig.settle(max_rounds=4000)
+    elif k == 'CH':          # the peer on this connection stops reading (harness-only)
+        rig.child_hold(ev[1])
     elif k == 'SET':         # settings sub-objects replaced as a whole (harness-only)
         rig.replace_settings_objects()
     elif k == 'KH':          # closing this connection will take time (harness-only)
@@ -339,6 +349,7 @@ def monitor(events, obs):
     dirty = set()             # children that missed an announcement because no session existed
     slow_dirty = set()        # children whose _add_child was still suspended in its first write when the position changed
     prev = {'parent': None, 'children': [], 'peers': [], 'cands': [], 'accept': True, 'max': 5, 'live': [], 'session': False}
+    lost = {}                 # connection -> virtual seconds passed since the remote side closed it
     pmin = pratio = None
     from collections import deque
     from aioslsk.constants import POTENTIAL_PARENTS_CACHE_SIZE
@@ -413,6 +424,17 @@ def monitor(events, obs):
         if o['parent'] is not None:
             if o['parent'] not in regs or o['parent'] not in o['live']:
                 add('parent-not-live', 'the parent is not a live distributed connection', {'step': i, 'parent': o['parent']})
+        # --- a connection the remote side closed is gone (not parent, not child) once the disconnect timeout has passed,
+        #     however long the transport takes to confirm the close
+        if ev[0] == 'CC':
+            lost[ev[1]] = 0.0
+        elif ev[0] == 'ADV':
+            from aioslsk.constants import DISCONNECT_TIMEOUT
+            for c in lost:
+                lost[c] += ev[1]
+                if lost[c] > DISCONNECT_TIMEOUT and (o['parent'] == c or c in o['children']):
+                    add('lost-connection-still-parent-or-child', f'connection {c} was closed by the peer {lost[c]} s ago (disconnect timeout '
+                        f'{DISCONNECT_TIMEOUT} s) but is still the parent / a child', {'step': i, 'conn': c, 'parent': o['parent'], 'children': o['children']})
         # --- docs/source/DESIGN.rst: branch values on a connection other than the parent connection lead to a disconnect,
         #     never to a change of parent while the parent is still connected
         if prev['parent'] is not None and o['parent'] is not None and o['parent'] != prev['parent'] \
@@ -504,7 +526,7 @@ def ev_coq(ev):
         return f'OwnStats {ev[1]}%Z'
     if k == 'RD':
         return 'ResetDistributed'
-    if k in ('CR', 'PF', 'KH', 'KR', 'SET'):
+    if k in ('CR', 'PF', 'KH', 'KR', 'SET', 'ADV', 'FL', 'CH'):
         return 'PotentialParents []'      # no-op of the model: nothing may change when a slow peer resumes
     if k == 'H':
         return 'Hold'
@@ -631,7 +653,7 @@ def valid(events):
             if e[1] in known:
                 return False
             known.add(e[1])
-        elif e[0] in ('BL', 'BR', 'CC', 'CR', 'KH', 'KR'):
+        elif e[0] in ('BL', 'BR', 'CC', 'CR', 'KH', 'KR', 'CH'):
             if e[1] not in known or e[1] in dead:
                 return False
             if e[0] == 'CC':
@@ -702,6 +724,20 @@ def run(run: Run):
         run.case({'l3': evs}, kind='l3-slow-close')
         for key, what, detail in violations(evs):
             run.add_finding(Finding(key, what, {'events': shrink_events(evs, key), 'detail': detail}, observed=detail.get('told'), expected=detail.get('position')))
+
+    # L3 only: a stalled peer (the transport never confirms the close) and a child that does not read while many requests are queued
+    from aioslsk.constants import DISCONNECT_TIMEOUT
+    stalled = [
+        [['SI'], ['PI', 1, 'alice', True], ['BL', 1, 3], ['BR', 1, 'root1'], ['PI', 2, 'bob', False], ['KH', 1], ['CC', 1], ['ADV', DISCONNECT_TIMEOUT + 1]],
+        [['SI'], ['PI', 1, 'alice', True], ['BL', 1, 0], ['PI', 2, 'bob', False], ['PI', 3, 'carol', False], ['KH', 2], ['CC', 2], ['ADV', DISCONNECT_TIMEOUT + 1],
+         ['KH', 1], ['CC', 1], ['ADV', DISCONNECT_TIMEOUT + 1]],
+        [['SI'], ['PI', 2, 'bob', False], ['PI', 3, 'carol', False], ['CH', 2], ['FL', 120], ['PI', 1, 'alice', True], ['BL', 1, 3], ['BR', 1, 'root1'], ['CR', 2]],
+        [['SI'], ['PI', 1, 'alice', True], ['BL', 1, 3], ['BR', 1, 'root1'], ['PI', 2, 'bob', False], ['CH', 2], ['FL', 130], ['BL', 1, 6], ['CC', 1], ['CR', 2]],
+    ]
+    for evs in stalled:
+        run.case({'l3': evs}, kind='l3-stalled-peer')
+        for key, what, detail in violations(evs):
+            run.add_finding(Finding(key, what, {'events': evs, 'detail': detail}, observed=detail.get('told'), expected=detail.get('position')))
 
     # float agreement of the child limit on a fixed grid (measured, never a verdict by itself)
     dis = sum(1 for r in range(1, 120) for s in range(0, 60000, 512) if not float_ok(s, r))
